@@ -15,7 +15,8 @@ RULE = ("part 'levels': generated valid documents loaded at vlevel 0,1,2,3: same
         "single-character edits, and typed Python values) at vlevel 0-3 (per Line) followed by get / field_to_s / "
         "str / validate_field / validate. Invalid value: raises at the assignment at level 3, is reported at write "
         "time at level >= 2, makes validate_field raise at every level; valid value: nothing raises anywhere and "
-        "the value reads back. non-trivial = program has >= 1 invalid and >= 1 valid assignment to a non-string "
+        "the value reads back. part 'typed': programs of set / delete / set-to-None of valid Python values on "
+        "custom tags, run at all four levels: never an exception, same written line at every level. non-trivial = program has >= 1 invalid and >= 1 valid assignment to a non-string "
         "datatype; distinct by hash")
 ASSUMPTIONS = [
     "'reported at write time' = field_to_s raises, str(line) raises, or the written line carries the '# INVALID' marker",
@@ -194,7 +195,88 @@ def st_assign(draw):
     return {"slot": slot, "vlevel": r.randrange(4), "values": vals, "via": gen.choice(r, ["set", "attr"])}
 
 
+# ---------------------------------------------------------------- typed programs, all levels
+
+TYPED = [13, -2, 2.5, 1e-7, "text", "c", {"k": [1, 2]}, ["a", 1], [1, 2, 300], [0.5, 1.5]]
+
+
+def typed_value(v):
+    if isinstance(v, list) and v and all(isinstance(x, (int, float)) for x in v):
+        return gfapy.NumericArray(v)
+    return v
+
+
+def run_program(prog, vlevel):
+    line = gfapy.Line("S\tA\t*\txx:i:1", vlevel=vlevel)
+    for step, (op, name, vi, via) in enumerate(prog):
+        try:
+            if op == "set":
+                v = typed_value(TYPED[vi % len(TYPED)])
+                if via == "attr":
+                    setattr(line, name, v)
+                else:
+                    line.set(name, v)
+                line.validate_field(name)
+                line.field_to_s(name, tag=True)
+            elif op == "delete":
+                line.delete(name)
+            else:
+                line.set(name, None)
+            s_ = str(line)
+            line.validate()
+        except Exception as e:
+            raise Violation("valid-program-rejected", "vlevel %d: step %d %r of the program %r raised %s: %s" % (
+                vlevel, step, (op, name, TYPED[vi % len(TYPED)] if op == "set" else None, via), prog, type(e).__name__, str(e)[:200]),
+                "%s/%s" % (op, type(e).__name__))
+        if "# INVALID" in s_:
+            raise Violation("valid-program-marked", "vlevel %d: after step %d of %r the line is written as %r" % (vlevel, step, prog, s_))
+    return str(line)
+
+
+def prop_typed(case):
+    prog = case["prog"]
+    texts = {k: run_program(prog, k) for k in range(4)}
+    if len(set(texts.values())) != 1:
+        raise Violation("levels-disagree", "the same valid program %r writes different lines at the four levels: %r" % (prog, texts))
+    kinds = set(p[0] for p in prog)
+    return {"nt": len(prog) >= 3 and len(kinds) >= 2, "len": len(prog)}
+
+
+@st.composite
+def st_typed(draw):
+    r = draw(st.randoms(use_true_random=False))
+    def kind(v):
+        if isinstance(v, bool):
+            return "?"
+        if isinstance(v, int):
+            return "i"
+        if isinstance(v, float):
+            return "f"
+        if isinstance(v, str):
+            return "Z"
+        if isinstance(v, list) and v and all(isinstance(x, (int, float)) for x in v):
+            return "B"
+        return "J"
+    prog = []
+    cur = {}
+    for _ in range(r.randint(1, 7)):
+        op = gen.choice(r, ["set", "set", "set", "delete", "none"])
+        name = gen.choice(r, ["zz", "ab", "q1"])
+        vi = r.randrange(len(TYPED))
+        if op == "set":
+            if name in cur:
+                # the datatype of an existing tag stays: only a value of the same kind is valid
+                same = [i for i, v in enumerate(TYPED) if kind(v) == cur[name]]
+                vi = gen.choice(r, same)
+            cur[name] = kind(TYPED[vi])
+        else:
+            cur.pop(name, None)
+        prog.append([op, name, vi, gen.choice(r, ["set", "attr"])])
+    return {"prog": prog}
+
+
 def parts(tier):
     q = tier == "quick"
     return [Part("levels", prop_levels, strategy=st_levels(), n=300 if q else 2000, quick_shards=4),
-            Part("assign", prop_assign, strategy=st_assign(), n=2500 if q else 15000, quick_shards=4)]
+            Part("assign", prop_assign, strategy=st_assign(), n=2500 if q else 15000, quick_shards=4),
+            Part("typed", prop_typed, strategy=st_typed(), n=600 if q else 4000, quick_shards=2)]
